@@ -26,6 +26,9 @@ ASSUMPTIONS = ['fields are 0-d or 2-d with positive dimensions; integer offsets'
                'exact regime: Gaussian-integer data, integer/dyadic weights (float arithmetic is exact)']
 RULE = ('corpus first, then random and (thorough) exhaustive small-scope cases over ops '
         '{mul, merge, reduce, insert, extent queries, array_extent, boundary, Wavefront.field/intensity}; '
+        'histories: the same Field objects used by 2-4 merge/reduce/intensity/insert/mul calls (a field spanning the others '
+        'listed first, 0-d fields at the origin, ...), each call compared on the ORIGINAL data + operands unchanged by value; '
+        'every Field built with the offset as list/tuple/ndarray/numpy ints/None and data as complex/real/int/Python values; '
         'non-trivial = not both operands centred at offset (0,0) with equal shapes; distinct by case hash')
 
 
@@ -36,7 +39,38 @@ def mk_field(fd):
         data = np.array(complex(*fd['data']))
     else:
         data = np.array([[complex(*v) for v in row] for row in fd['data']], dtype=complex)
-    return lentil.field.Field(data=data, offset=list(fd['off']))
+    # the data argument in the dtypes / forms a caller may use (Field casts to complex)
+    dform = fd.get('dform', 'complex')
+    if dform != 'complex' and np.all(data.imag == 0):
+        if dform == 'real':
+            data = data.real.copy()
+        elif dform == 'int' and np.all(data.real == np.round(data.real)):
+            data = data.real.astype(int)
+        elif dform == 'py':
+            data = data.real.tolist()        # a Python number / nested list
+    elif dform == 'py':
+        data = data.tolist()
+    return lentil.field.Field(data=data, offset=mk_offset(fd))
+
+
+def mk_offset(fd):
+    """the offset argument in every documented/used form: list, tuple, ndarray, numpy integers, None for (0, 0)"""
+    form = fd.get('form', 'list')
+    r, c = int(fd['off'][0]), int(fd['off'][1])
+    if form == 'tuple':
+        return (r, c)
+    if form == 'ndarray':
+        return np.array([r, c])
+    if form == 'npint':
+        return (np.int64(r), np.int64(c))
+    if form == 'npint_list':
+        return [np.int32(r), np.int32(c)]
+    if form == 'none' and (r, c) == (0, 0):
+        return None
+    return [r, c]
+
+
+FORMS = ['list', 'list', 'tuple', 'tuple', 'ndarray', 'npint', 'npint_list', 'none']
 
 
 def enc_field(fd):
@@ -135,17 +169,95 @@ def rnd_field(rng, maxn=4, offr=5, allow0=True, allow11=True):
     off = [rng.randint(-offr, offr), rng.randint(-offr, offr)]
     if rng.random() < 0.25:
         off = [0, 0]
+    form = rng.choice(FORMS)
+    dform = rng.choice(['complex', 'complex', 'real', 'int', 'py'])
     if allow0 and t < 0.12:
-        return {'tag': 0, 'data': rnd_gauss(rng), 'off': off}
+        d = rnd_gauss(rng)
+        if dform != 'complex' and rng.random() < 0.7:
+            d[1] = 0
+        return {'tag': 0, 'data': d, 'off': off, 'form': form, 'dform': dform}
     if allow11 and t < 0.22:
         n, m = 1, 1
     else:
         n, m = rng.randint(1, maxn), rng.randint(1, maxn)
     data = [[rnd_gauss(rng) for _ in range(m)] for _ in range(n)]
-    return {'tag': 2, 'data': data, 'off': off}
+    if dform in ('real', 'int') and rng.random() < 0.7:
+        data = [[[v[0], 0] for v in row] for row in data]
+    return {'tag': 2, 'data': data, 'off': off, 'form': form, 'dform': dform}
+
+
+def rnd_hist(rng):
+    """the same Field objects used by 2-4 calls: a field that spans the bounding box of the others (listed first in
+    half of the cases) plus smaller fields inside it, or 0-d fields at the origin, or arbitrary fields"""
+    t = rng.random()
+    if t < 0.55:
+        n, m = rng.randint(2, 5), rng.randint(2, 5)
+        off = [rng.randint(-3, 3), rng.randint(-3, 3)]
+        big = {'tag': 2, 'data': [[rnd_gauss(rng) for _ in range(m)] for _ in range(n)], 'off': off, 'form': rng.choice(FORMS)}
+        r0, c0 = -(n // 2) + off[0], -(m // 2) + off[1]
+        fs = []
+        for _ in range(rng.randint(1, 3)):
+            a, b = rng.randint(1, n), rng.randint(1, m)
+            i0, j0 = rng.randint(0, n - a), rng.randint(0, m - b)
+            fs.append({'tag': 2, 'data': [[rnd_gauss(rng) for _ in range(b)] for _ in range(a)],
+                       'off': [r0 + i0 + a // 2, c0 + j0 + b // 2], 'form': rng.choice(FORMS)})
+        fs.insert(0 if rng.random() < 0.6 else rng.randrange(len(fs) + 1), big)
+        if rng.random() < 0.3:
+            fs.append(rnd_field(rng, maxn=3, offr=6, allow0=False))
+    elif t < 0.7:
+        fs = [{'tag': 0, 'data': rnd_gauss(rng), 'off': [0, 0], 'form': rng.choice(FORMS)} for _ in range(rng.randint(2, 3))]
+    else:
+        fs = [rnd_field(rng, maxn=4, offr=3, allow0=False) for _ in range(rng.randint(2, 4))]
+    k = len(fs)
+    sized = all(f['tag'] == 2 for f in fs)
+    calls = []
+    for _ in range(rng.randint(2, 4)):
+        u = rng.random()
+        idx = list(range(k))
+        if rng.random() < 0.3:
+            rng.shuffle(idx)
+            idx = idx[:rng.randint(1, k)]
+        if u < 0.3:
+            calls.append({'op': 'merge', 'idx': idx})
+        elif u < 0.55:
+            calls.append({'op': 'reduce', 'idx': idx})
+        elif u < 0.75 and sized:
+            calls.append({'op': rng.choice(['wintensity', 'wintensity', 'wfield']), 'idx': idx,
+                          'shape': [rng.randint(2, 7), rng.randint(2, 7)]})
+        elif u < 0.88 and sized:
+            R, Cc = rng.randint(2, 6), rng.randint(2, 6)
+            inten = rng.random() < 0.5
+            calls.append({'op': 'insert', 'i': rng.randrange(k), 'intensity': inten,
+                          'out': [[[rng.randint(-3, 3), 0 if inten else rng.randint(-3, 3)] for _ in range(Cc)] for _ in range(R)],
+                          'w': str(rng.choice([1, 2, Fraction(1, 2), -1]))})
+        else:
+            calls.append({'op': 'mul', 'i': rng.randrange(k), 'j': rng.randrange(k)})
+    return {'op': 'hist', 'fs': fs, 'calls': calls}
+
+
+def expand(c, call):
+    """one call of a history as an ordinary case on the ORIGINAL field data"""
+    op = call['op']
+    if op in ('merge', 'reduce', 'boundary'):
+        return {'op': op, 'fs': [c['fs'][i] for i in call['idx']]}
+    if op in ('wfield', 'wintensity'):
+        return {'op': op, 'fs': [c['fs'][i] for i in call['idx']], 'shape': call['shape']}
+    if op == 'insert':
+        return {'op': op, 'f': c['fs'][call['i']], 'out': call['out'], 'intensity': call['intensity'], 'w': call['w']}
+    if op == 'mul':
+        return {'op': op, 'a': c['fs'][call['i']], 'b': c['fs'][call['j']]}
+    raise ValueError(op)
 
 
 def generate(rng, tier):
+    # 0-d x 0-d at equal offsets, the two offsets given in every pair of argument forms
+    for fa in ('list', 'tuple', 'ndarray', 'npint', 'none'):
+        for fb in ('list', 'tuple', 'ndarray', 'npint_list', 'none'):
+            off = [0, 0] if 'none' in (fa, fb) or rng.random() < 0.5 else [rng.randint(-3, 3), rng.randint(-3, 3)]
+            yield {'op': 'mul', 'a': {'tag': 0, 'data': rnd_gauss(rng), 'off': off, 'form': fa},
+                   'b': {'tag': 0, 'data': rnd_gauss(rng), 'off': list(off), 'form': fb}}
+    for _ in range(150 if tier == 'quick' else 1500):
+        yield rnd_hist(rng)
     n = 1500 if tier == 'quick' else 12000
     for _ in range(n):
         t = rng.random()
@@ -207,11 +319,15 @@ def generate(rng, tier):
 
 
 def classify(c):
+    if c['op'] == 'hist':
+        return 'hist/' + '-'.join(x['op'] for x in c['calls'])
     return c['op']
 
 
 def nontrivial(c):
     op = c['op']
+    if op == 'hist':
+        return True
     if op == 'mul':
         return not (c['a']['off'] == [0, 0] and c['b']['off'] == [0, 0] and shape_of(c['a']) == shape_of(c['b']))
     if op in ('merge', 'reduce', 'boundary', 'wfield', 'wintensity'):
@@ -224,6 +340,12 @@ def nontrivial(c):
 # ------------------------------------------------------------------ model side
 def encode(c):
     op = c['op']
+    if op == 'hist':
+        out = [10]
+        for call in c['calls']:
+            sub = encode(expand(c, call))
+            out += [len(sub)] + sub
+        return out
     if op == 'mul':
         return [1] + enc_field(c['a']) + enc_field(c['b'])
     if op == 'merge':
@@ -249,6 +371,15 @@ def encode(c):
 
 
 def decode(c, ints):
+    if c['op'] == 'hist':
+        assert ints[0] == 0
+        pos, res = 1, []
+        for call in c['calls']:
+            n = ints[pos]
+            res.append(decode(expand(c, call), ints[pos + 1:pos + 1 + n]))
+            pos += 1 + n
+        assert pos == len(ints)
+        return {'calls': res}
     rd = C.Reader(ints, 1)
     st = rd.z()
     if st == 1:
@@ -273,11 +404,24 @@ def decode(c, ints):
 
 
 # ------------------------------------------------------------------ implementation side
-def run_impl(c):
+def run_hist(c):
+    """every call of the history on the SAME Field objects, then the state of the operands"""
+    objs = [mk_field(f) for f in c['fs']]
+    res = []
+    for call in c['calls']:
+        sub = dict(call)
+        res.append(_run_impl_c06(expand(c, call), lambda fd: objs[[id(x) for x in c["fs"]].index(id(fd))]))
+    return {'calls': res, 'operands': [impl_field_canon(o) for o in objs]}
+
+
+def run_impl(c, mk=None):
     lentil = C.import_lentil()
     F = lentil.field
     E = lentil.extent
     op = c['op']
+    if op == 'hist':
+        return run_hist(c)
+    mk_field = mk or globals()['mk_field']
     try:
         if op == 'mul':
             return impl_field_canon(mk_field(c['a']) * mk_field(c['b']))
@@ -320,6 +464,12 @@ def run_impl(c):
 # ------------------------------------------------------------------ comparison (observe what the property pins)
 def compare(c, impl, model):
     op = c['op']
+    if op == 'hist':
+        for k, call in enumerate(c['calls']):
+            m = compare(expand(c, call), impl['calls'][k], model['calls'][k])
+            if m:
+                return f'call {k} ({call["op"]}) on fields already used by {k} earlier call(s): {m}'
+        return None
     if ('err' in impl) != ('err' in model):
         return f'implementation {impl if "err" in impl else "returned a value"}, model {model if "err" in model else "returned a value"}'
     if 'err' in impl:
@@ -364,8 +514,29 @@ def sum_canvas(cfs, box):
 
 
 # ------------------------------------------------------------------ direct property oracle (independent of the model)
+def oracle_hist(c, impl):
+    for k, call in enumerate(c['calls']):
+        sub = expand(c, call)
+        m = oracle(sub, impl['calls'][k])
+        if m:
+            kf = sub['op'] == 'mul' and known_match({'id': 'C06-scalar-scalar-offsets'}, sub, impl['calls'][k])
+            ki = sub['op'] == 'insert' and sub['f']['tag'] == 0
+            if not kf and not ki:
+                return f'call {k} ({call["op"]}) on fields already used by {k} earlier call(s): {m}'
+    for i, (fd, got) in enumerate(zip(c['fs'], impl['operands'])):
+        if got.get('kind') != 'field' or got['tag'] != fd['tag'] or got['off'] != list(fd['off']):
+            return f'operand {i} changed (kind/offset) after the calls'
+        want = [float(fd['data'][0]), float(fd['data'][1])] if fd['tag'] == 0 else \
+            [[[float(v[0]), float(v[1])] for v in row] for row in fd['data']]
+        if got['data'] != want:
+            return f'operand {i} was modified by the calls: its data is now {got["data"]}, it was {want}'
+    return None
+
+
 def oracle(c, impl):
     op = c['op']
+    if op == 'hist':
+        return oracle_hist(c, impl)
     if op == 'mul':
         a, b = c['a'], c['b']
         if 'err' in impl:
